@@ -263,6 +263,7 @@ fn replay_schedule(case: &Value, rep: &mut Report, rng: &mut Rng) {
     if bool_of(p, "hasval") {
         return; // validation variants are replayed by the early-stop / flags instances
     }
+    replay_block_twin(case, rep, rng);
     // (plus an image-to-image network -- the last layer is a convolution, the targets are volumes -- which only the
     // schedule replay can use: `validate` scores flat outputs)
     let image = json!({"name": "image-to-image-sgdm", "ints": false, "input": [1, 4, 4], "out": 2, "image_target": [3, 4, 4],
@@ -276,6 +277,21 @@ fn replay_schedule(case: &Value, rep: &mut Report, rng: &mut Rng) {
         init_params(&mut a, &arch, rng);
         let mut r = nets::build(&arch);
         nets::copy_params(&a, &mut r);
+        // Optimizer.tla, SGDM: a step with step number 1 sets the velocity to the gradient and is a plain SGD step -- so a
+        // one-epoch run (every group is stepped with step number 1) equals the same run under SGD
+        let sgd_twin = if e == 1 && arch["optimizer"]["kind"] == "sgdm" {
+            let mut t_arch = arch.clone();
+            let mut o = json!({"kind": "sgd", "lr": arch["optimizer"]["lr"]});
+            if let Some(d) = arch["optimizer"].get("decay") {
+                o["decay"] = d.clone();
+            }
+            t_arch["optimizer"] = o;
+            let mut t = nets::build(&t_arch);
+            nets::copy_params(&a, &mut t);
+            Some(t)
+        } else {
+            None
+        };
         rep.checks += 1;
         let learned = guarded(|| {
             let out = a.learn(&refs(&data.inputs), &refs(&data.targets), None, b, e as i32, None);
@@ -307,6 +323,22 @@ fn replay_schedule(case: &Value, rep: &mut Report, rng: &mut Rng) {
         } else if let (Ok(_), Ok(_), Err(e)) = (&learned, &reference, &second) {
             rep.mismatch("C04", "second_learn_call_panicked", &id, json!({"arch": name, "panic": e}), case);
         }
+        if let (Some(mut t), Ok((_, wa))) = (sgd_twin, &learned) {
+            if let Ok(wt) = guarded(|| {
+                t.learn(&refs(&data.inputs), &refs(&data.targets), None, b, 1, None);
+                nets::all_params(&t)
+            }) {
+                let fa: Vec<f32> = wa.iter().flatten().cloned().collect();
+                let ft: Vec<f32> = wt.into_iter().flatten().collect();
+                rep.checks += 1;
+                if fa.iter().chain(ft.iter()).all(|x| x.is_finite()) {
+                    if let Some(d) = diff_flat_close(&fa, &ft, 1e-6) {
+                        rep.mismatch("C04", "first_epoch_of_sgdm_differs_from_sgd", &id, json!({"arch": name, "diff": d}), case);
+                        rep.mismatch("C03", "first_epoch_of_sgdm_differs_from_sgd", &id, json!({"arch": name, "diff": d}), case);
+                    }
+                }
+            }
+        }
         match (learned, reference) {
             (Ok(((train, val, acc), wa)), Ok((href, wr))) => {
                 let exact = arch["ints"].as_bool().unwrap_or(false);
@@ -335,6 +367,57 @@ fn replay_schedule(case: &Value, rep: &mut Report, rng: &mut Rng) {
                     json!({"arch": name, "learn": l.err(), "reference": r.err()}),
                     case,
                 );
+            }
+        }
+    }
+}
+
+/// A feedback block with ONE loop and no skips is its layer sequence: trained with the optimizer the network was given --
+/// options that are easy to confuse set to different values -- it must follow the plain network step for step.
+fn replay_block_twin(case: &Value, rep: &mut Report, rng: &mut Rng) {
+    let p = &case["p"];
+    let (n, b, e) = (usize_of(p, "n"), usize_of(p, "b"), usize_of(p, "e"));
+    let optimizers = [
+        json!({"kind": "rmsprop", "lr": 0.01, "alpha": 0.9, "decay": 0.1}),
+        json!({"kind": "rmsprop", "lr": 0.01, "alpha": 0.9, "momentum": 0.5, "centered": true}),
+        json!({"kind": "sgdm", "lr": 0.05, "momentum": 0.9, "dampening": 0.1, "decay": 0.01}),
+        json!({"kind": "adam", "lr": 0.01, "decay": 0.05}),
+        json!({"kind": "adamw", "lr": 0.01, "decay": 0.05}),
+        json!({"kind": "sgd", "lr": 0.05, "decay": 0.02}),
+    ];
+    let opt = optimizers[(n * 5 + b * 3 + e) % optimizers.len()].clone();
+    let inner = json!({"kind": "dense", "out": 4, "act": "tanh", "bias": true});
+    let plain = json!({"name": "plain", "ints": false, "input": [4], "out": 2,
+        "layers": [{"kind": "dense", "out": 4, "act": "tanh", "bias": true}, inner.clone(), {"kind": "dense", "out": 2, "act": "linear", "bias": true}],
+        "objective": {"kind": "mse"}, "optimizer": opt.clone()});
+    let block = json!({"name": "block", "ints": false, "input": [4], "out": 2,
+        "layers": [{"kind": "dense", "out": 4, "act": "tanh", "bias": true},
+                   {"kind": "feedback", "loops": 1, "acc": "mean", "layers": [inner]},
+                   {"kind": "dense", "out": 2, "act": "linear", "bias": true}],
+        "objective": {"kind": "mse"}, "optimizer": opt.clone()});
+    let id = format!("training:schedule:block-twin:n{}b{}e{}:{}", n, b, e, opt["kind"]);
+    rep.checks += 1;
+    let res = guarded(|| {
+        let mut pn = nets::build(&plain);
+        init_params(&mut pn, &plain, rng);
+        let mut bn = nets::build(&block);
+        verif::set_layer(&mut bn.layers[0], verif::layer_params(&pn.layers[0]));
+        verif::set_layer(&mut verif::inner_layers_mut(&mut bn.layers[1])[0], verif::layer_params(&pn.layers[1]));
+        verif::set_layer(&mut bn.layers[2], verif::layer_params(&pn.layers[2]));
+        let data = arch_dataset(&plain, n, rng);
+        let lp = pn.learn(&refs(&data.inputs), &refs(&data.targets), None, b, e as i32, None);
+        let lb = bn.learn(&refs(&data.inputs), &refs(&data.targets), None, b, e as i32, None);
+        (lp.0, lb.0, nets::all_params(&pn), nets::all_params(&bn))
+    });
+    match res {
+        Err(msg) => rep.mismatch("C04", "learn_or_reference_panicked", &id, json!({"panic": msg}), case),
+        Ok((lp, lb, wp, wb)) => {
+            let (fp, fb): (Vec<f32>, Vec<f32>) = (wp.into_iter().flatten().collect(), wb.into_iter().flatten().collect());
+            if fp.iter().all(|x| x.is_finite()) {
+                if let Some(d) = diff_flat_close(&fb, &fp, 1e-6).or_else(|| diff_flat_close(&lb, &lp, 1e-6)) {
+                    rep.mismatch("C04", "one_loop_block_is_not_stepped_with_the_network_optimizer", &id, json!({"optimizer": opt, "diff": d}), case);
+                    rep.mismatch("C03", "one_loop_block_is_not_stepped_with_the_network_optimizer", &id, json!({"optimizer": opt, "diff": d}), case);
+                }
             }
         }
     }
